@@ -152,7 +152,7 @@ var evNamedPName = "custom.namedp.v1"
 func (e *evNamedP) EventTypeName() string { return evNamedPName }
 
 // flakyStore wraps the real MemoryStore; each Append consumes one outcome:
-// 0 ok, 1 rejected with errInjected, 2 deadline expired.
+// 0 ok, 1 rejected with errInjected, 2 deadline expired, 4 acknowledged although the deadline passed meanwhile.
 type flakyStore struct {
 	inner       *MemoryStore
 	outcomes    []int
@@ -185,6 +185,11 @@ func (f *flakyStore) Append(ctx context.Context, e *Event) (Offset, error) {
 	case 2:
 		vmCtxExpire(ctx)
 		return "", context.DeadlineExceeded
+	case 4:
+		// a write that cannot be abandoned once begun: the deadline passes while it is in flight, it completes
+		// all the same and is acknowledged
+		vmCtxExpire(ctx)
+		return f.inner.Append(context.Background(), e)
 	}
 	return f.inner.Append(ctx, e)
 }
